@@ -23,6 +23,7 @@
 #include "llvm/ADT/SmallVector.h"
 #include "llvm/Support/raw_ostream.h"
 
+#include <algorithm>
 #include <cstdlib>
 #include <vector>
 
@@ -383,6 +384,8 @@ public:
     Command* decl;
     const Token& startTok;
     bool shellEscapeInAndOut;
+    /// The rule variables currently being expanded, to diagnose cycles.
+    SmallVector<StringRef, 4> expanding;
   };
   static void lookupBuildParameter(void* userContext, StringRef name,
                                    raw_ostream& result) {
@@ -424,11 +427,20 @@ public:
     }
     auto it2 = decl->getRule()->getParameters().find(name);
     if (it2 != decl->getRule()->getParameters().end()) {
+      // Diagnose a rule variable that (transitively) refers to itself.
+      if (std::find(context->expanding.begin(), context->expanding.end(),
+                    it2->first()) != context->expanding.end()) {
+        error("cycle in rule variables involving '" + name.str() + "'",
+              context->startTok);
+        return;
+      }
+      context->expanding.push_back(it2->first());
       evalString(context, it2->second, result, lookupBuildParameter,
                  /*Error=*/ [&](const std::string& msg) {
                    error(msg + " during evaluation of '" + name.str() + "'",
                          context->startTok);
                  });
+      context->expanding.pop_back();
       return;
     }
       
